@@ -11,6 +11,7 @@ the protection.
 -/
 import Tough.Props.C03
 import Tough.Proofs.ClientTrace
+import Tough.Proofs.ClientRerun
 import Tough.Proofs.ExceptDec
 namespace Tough.C15
 open Tough.Sig Tough.Client Tough.C03
@@ -396,6 +397,253 @@ theorem targets_protected_despite_crashes (ds : Datastore) (ci : Cyc) (xi : View
     ExemptInRuns ExemptTgt (ci.run ds).2.ds (mid ++ [⟨cj, none⟩]) :=
   liftRuns (G := GuardTgt (Tgt.doc xi.tgt).version) (P := fun x => (Tgt.doc xi.tgt).version ≤ (Tgt.doc x.tgt).version)
     (step_tgt _) (crash_tgt _) mid _ (established_tgt ds ci xi hi) cj
+
+/-! ### An interrupted cycle never locks the client out of the repository it was fetching
+
+`Resumable` says which datastores a successful cycle passes through, slot by slot: either the recorded
+root is still the one the cycle started with (then the targets slot is untouched and the online slots
+are untouched or on their way to being cleared by a rotation), or the new root is recorded and every
+slot holds what it held after the root phase or the document the cycle went on to trust. -/
+
+def blocksTs (root : Root) (slot : Slot Timestamp) (ts : Timestamp) : Bool :=
+  storedBlocks (fun old => rootVerify root .timestamp old.msg old.sigs) (·.version) slot ts.version
+def blocksTgt (root : Root) (slot : Slot TargetsDoc) (t : TargetsDoc) : Bool :=
+  storedBlocks (fun old => rootVerify root .targets old.msg old.sigs) (·.version) slot t.version
+
+theorem self_not_blocksTs (root : Root) (ts : Timestamp) : blocksTs root (.doc ts) ts = false := by
+  simp [blocksTs, storedBlocks]
+theorem self_not_blocksTgt (root : Root) (t : TargetsDoc) : blocksTgt root (.doc t) t = false := by
+  simp [blocksTgt, storedBlocks]
+theorem self_not_blocksSnap (root : Root) (sn : Snapshot) : storedSnapshotBlocks root (.doc sn) sn = none := by
+  simp only [storedSnapshotBlocks]
+  split
+  · simp only [snapshotRollback, Nat.lt_irrefl, ↓reduceIte]
+    cases sn.find .targets with
+    | none => rfl
+    | some m => simp
+  · rfl
+
+/-- **C15.b (no lock-out, for the repository being fetched).** Let a cycle succeed with view `v`.
+Then from EVERY datastore that cycle can leave behind when it is cut short — before its first datastore
+operation, after any of them, or after a failed one — the same cycle (same repository, same clock)
+succeeds again with the same view: an interruption never makes the client refuse the repository it was
+in the middle of accepting. -/
+theorem crash_no_lockout (c : Cyc) (ds : Datastore) (v : View) (h : (c.run ds).1 = .ok v) :
+    ∀ d ∈ crashStates c ds, (c.run d).1 = .ok v := by
+  intro d hd
+  unfold Cyc.run at h ⊢
+  -- the phases of the successful run
+  cases hc : cycle c.cfg c.srv c.shipped ⟨ds, []⟩ with
+  | mk res a4 =>
+    rw [hc] at h
+    simp only at h
+    subst h
+    have hcyc := hc
+    unfold cycle at hc
+    cases h0 : loadRoot c.cfg c.srv c.shipped ⟨ds, []⟩ with
+    | mk r0r a1 =>
+      rw [h0] at hc
+      cases r0r with
+      | error e => simp at hc
+      | ok root =>
+        simp only at hc
+        cases h1 : loadTimestamp c.cfg c.srv root a1 with
+        | mk r1 a2 =>
+          rw [h1] at hc
+          cases r1 with
+          | error e => simp at hc
+          | ok ts =>
+            simp only at hc
+            cases h2 : loadSnapshot c.cfg c.srv root ts a2 with
+            | mk r2 a3 =>
+              rw [h2] at hc
+              cases r2 with
+              | error e => simp at hc
+              | ok sn =>
+                simp only at hc
+                cases h3 : loadTargets c.cfg c.srv root sn a3 with
+                | mk r3 a4' =>
+                  rw [h3] at hc
+                  cases r3 with
+                  | error e => simp at hc
+                  | ok t =>
+                    simp only [Prod.mk.injEq, Except.ok.injEq] at hc
+                    obtain ⟨hv, ha4⟩ := hc
+                    subst hv; subst ha4
+                    -- facts about the boundary states
+                    have ok1 := loadRoot_ok h0
+                    have ok2 := loadTimestamp_ok h1
+                    have ok3 := loadSnapshot_ok h2
+                    obtain ⟨r0, hr0, _, _, _, hsame, hdiff⟩ := ok1.shipped
+                    have clock0 : TimeOk c.cfg ds := fun hs t ht => by
+                      have := ok1.clockOk hs t ht; omega
+                    have k3 := loadSnapshot_keeps (cfg := c.cfg) (srv := c.srv) (root := root) (ts := ts) a2
+                    rw [h2] at k3
+                    have k4 := loadTargets_keeps (cfg := c.cfg) (srv := c.srv) (root := root) (snap := sn) a3
+                    rw [h3] at k4
+                    have st4 := loadTargets_ok_stored h3
+                    have ub2 := loadTimestamp_unblocked h1
+                    have ub3 := loadSnapshot_unblocked h2
+                    have ub4 := loadTargets_unblocked h3
+                    have root2 : a2.ds.root = a1.ds.root := loadTimestamp_ok_root h1
+                    have a1tgt : a1.ds.tgt = ds.tgt := by
+                      cases hk : onlineKeysChanged (refRoot ds r0) root with
+                      | false => exact congrArg (·.2.2) (hsame hk)
+                      | true => exact (hdiff hk).2.2
+                    have a3snap : a3.ds.snap = .doc sn := ok3.storedSnap
+                    have a3tgt : a3.ds.tgt = ds.tgt := (k3.2.2.trans ok2.storedTgt).trans a1tgt
+                    -- the shape of d
+                    have shape : TimeOk c.cfg d ∧
+                        ((d.root = ds.root ∧ d.tgt = ds.tgt ∧
+                            (onlineKeysChanged (refRoot ds r0) root = true ∨ (d.ts = ds.ts ∧ d.snap = ds.snap))) ∨
+                         (d.root = .doc root ∧ (d.ts = a1.ds.ts ∨ d.ts = .doc ts) ∧ (d.snap = a1.ds.snap ∨ d.snap = .doc sn) ∧
+                            (d.tgt = ds.tgt ∨ d.tgt = .doc (Tgt.doc t)))) := by
+                      simp only [crashStates, Cyc.run, hcyc, List.mem_cons] at hd
+                      rcases hd with rfl | hd
+                      · exact ⟨clock0, Or.inl ⟨rfl, rfl, Or.inr ⟨rfl, rfl⟩⟩⟩
+                      · have kt := cycle_keepsTime (cfg := c.cfg) (srv := c.srv) c.shipped ⟨ds, []⟩
+                        rw [hcyc] at kt
+                        have htime : TimeOk c.cfg d := by
+                          rcases kt.1 d hd with hh | hh
+                          · simp [St.states] at hh
+                          · intro hs tt htt
+                            rcases hh with e | e
+                            · exact clock0 hs tt (e ▸ htt)
+                            · rw [e] at htt; simp only [Option.some.injEq] at htt; subst htt; exact Int.lt_irrefl _
+                        refine ⟨htime, ?_⟩
+                        -- where in the run d occurs
+                        have g4 := loadTargets_grows (cfg := c.cfg) (srv := c.srv) root sn a3
+                        rw [h3] at g4
+                        have g3 := loadSnapshot_grows (cfg := c.cfg) (srv := c.srv) root ts a2
+                        rw [h2] at g3
+                        have g2 := loadTimestamp_grows (cfg := c.cfg) (srv := c.srv) root a1
+                        rw [h1] at g2
+                        have g1 := loadRoot_grows (cfg := c.cfg) (srv := c.srv) c.shipped ⟨ds, []⟩
+                        rw [h0] at g1
+                        -- the trust states at the boundaries, slot by slot
+                        have B1 : ∀ x : Datastore, x.trust = a1.ds.trust → (x.root = .doc root ∧ (x.ts = a1.ds.ts ∨ x.ts = .doc ts) ∧ (x.snap = a1.ds.snap ∨ x.snap = .doc sn) ∧ (x.tgt = ds.tgt ∨ x.tgt = .doc (Tgt.doc t))) :=
+                          fun x e => ⟨(congrArg (·.2.2.2) e).trans ok1.recorded, Or.inl (congrArg (·.1) e), Or.inl (congrArg (·.2.1) e), Or.inl ((congrArg (·.2.2.1) e).trans a1tgt)⟩
+                        have B2 : ∀ x : Datastore, x.trust = a2.ds.trust → (x.root = .doc root ∧ (x.ts = a1.ds.ts ∨ x.ts = .doc ts) ∧ (x.snap = a1.ds.snap ∨ x.snap = .doc sn) ∧ (x.tgt = ds.tgt ∨ x.tgt = .doc (Tgt.doc t))) :=
+                          fun x e => ⟨((congrArg (·.2.2.2) e).trans root2).trans ok1.recorded, Or.inr ((congrArg (·.1) e).trans ok2.storedTs),
+                            Or.inl ((congrArg (·.2.1) e).trans ok2.storedSnap), Or.inl (((congrArg (·.2.2.1) e).trans ok2.storedTgt).trans a1tgt)⟩
+                        have B3 : ∀ x : Datastore, x.trust = a3.ds.trust → (x.root = .doc root ∧ (x.ts = a1.ds.ts ∨ x.ts = .doc ts) ∧ (x.snap = a1.ds.snap ∨ x.snap = .doc sn) ∧ (x.tgt = ds.tgt ∨ x.tgt = .doc (Tgt.doc t))) :=
+                          fun x e => ⟨(((congrArg (·.2.2.2) e).trans k3.2.1).trans root2).trans ok1.recorded, Or.inr (((congrArg (·.1) e).trans k3.1).trans ok2.storedTs),
+                            Or.inr ((congrArg (·.2.1) e).trans a3snap), Or.inl ((congrArg (·.2.2.1) e).trans a3tgt)⟩
+                        have B4 : ∀ x : Datastore, x.trust = a4'.ds.trust → (x.root = .doc root ∧ (x.ts = a1.ds.ts ∨ x.ts = .doc ts) ∧ (x.snap = a1.ds.snap ∨ x.snap = .doc sn) ∧ (x.tgt = ds.tgt ∨ x.tgt = .doc (Tgt.doc t))) :=
+                          fun x e => ⟨((((congrArg (·.2.2.2) e).trans k4.2.2.1).trans k3.2.1).trans root2).trans ok1.recorded,
+                            Or.inr ((((congrArg (·.1) e).trans k4.1).trans k3.1).trans ok2.storedTs),
+                            Or.inr (((congrArg (·.2.1) e).trans k4.2.1).trans a3snap), Or.inr ((congrArg (·.2.2.1) e).trans st4)⟩
+                        rcases g4 d hd with hd3 | e | e
+                        · rcases g3 d hd3 with hd2 | e | e
+                          · rcases g2 d hd2 with hd1 | e | e
+                            · rcases g1 d hd1 with hh | e | e | ⟨⟨r0', R'', hs, hok, hrot⟩, e1, e2⟩
+                              · simp [St.states] at hh
+                              · exact Or.inl ⟨congrArg (·.2.2.2) e, congrArg (·.2.2.1) e, Or.inr ⟨congrArg (·.1) e, congrArg (·.2.1) e⟩⟩
+                              · exact Or.inr (B1 d e)
+                              · rw [h0] at hok
+                                simp only [Except.ok.injEq] at hok
+                                rw [hr0] at hs
+                                simp only [Option.some.injEq] at hs
+                                subst hs; subst hok
+                                exact Or.inl ⟨e2, e1, Or.inl hrot⟩
+                            · exact Or.inr (B1 d e)
+                            · exact Or.inr (B2 d e)
+                          · exact Or.inr (B2 d e)
+                          · exact Or.inr (B3 d e)
+                        · exact Or.inr (B3 d e)
+                        · exact Or.inr (B4 d e)
+                    obtain ⟨htime, hshape⟩ := shape
+                    -- the three stored documents, as they are after the root phase of the second run, block nothing
+                    have a1ds : ∃ l, loadRoot c.cfg c.srv c.shipped ⟨ds, []⟩ = (.ok root, ⟨afterRoot c.cfg r0 root ds, l⟩) := by
+                      obtain ⟨r0', l, hs, hl⟩ := loadRoot_rerun (cfg := c.cfg) (srv := c.srv) ⟨ds, []⟩ h0 clock0
+                      rw [hr0] at hs; simp only [Option.some.injEq] at hs; subst hs
+                      exact ⟨l, hl⟩
+                    obtain ⟨l1, hl1⟩ := a1ds
+                    have ea1 : a1.ds = afterRoot c.cfg r0 root ds := by
+                      rw [h0] at hl1
+                      simp only [Prod.mk.injEq, Except.ok.injEq, true_and] at hl1
+                      rw [hl1]
+                    have tsd : (afterRoot c.cfg r0 root d).ts = if onlineKeysChanged (refRoot d r0) root then .absent else d.ts := by
+                      unfold afterRoot
+                      have := congrArg (·.1) (gated_trust (cfg := c.cfg) d)
+                      split <;> first | rfl | exact this
+                    have snd : (afterRoot c.cfg r0 root d).snap = if onlineKeysChanged (refRoot d r0) root then .absent else d.snap := by
+                      unfold afterRoot
+                      have := congrArg (·.2.1) (gated_trust (cfg := c.cfg) d)
+                      split <;> first | rfl | exact this
+                    have tsa : a1.ds.ts = if onlineKeysChanged (refRoot ds r0) root then .absent else ds.ts := by
+                      rw [ea1]; unfold afterRoot
+                      have := congrArg (·.1) (gated_trust (cfg := c.cfg) ds)
+                      split <;> first | rfl | exact this
+                    have sna : a1.ds.snap = if onlineKeysChanged (refRoot ds r0) root then .absent else ds.snap := by
+                      rw [ea1]; unfold afterRoot
+                      have := congrArg (·.2.1) (gated_trust (cfg := c.cfg) ds)
+                      split <;> first | rfl | exact this
+                    have sn2 : a2.ds.snap = a1.ds.snap := ok2.storedSnap
+                    have hrun := cycle_rerun (cfg := c.cfg) (srv := c.srv) (shipped := c.shipped) (v := ⟨root, ts, sn, t⟩) ⟨d, []⟩ hcyc htime
+                      (by
+                        intro r0' hs'
+                        rw [hr0] at hs'; simp only [Option.some.injEq] at hs'; subst hs'
+                        show blocksTs root (afterRoot c.cfg r0 root d).ts ts = false
+                        rw [tsd]
+                        rcases hshape with ⟨hr, _, hrot | ⟨e1, _⟩⟩ | ⟨hr, hts, _, _⟩
+                        · have : refRoot d r0 = refRoot ds r0 := by simp [refRoot, hr]
+                          rw [this, hrot]; rfl
+                        · have : refRoot d r0 = refRoot ds r0 := by simp [refRoot, hr]
+                          rw [this, e1]
+                          have := ub2
+                          rw [tsa] at this
+                          exact this
+                        · have : refRoot d r0 = root := by simp [refRoot, hr]
+                          rw [this, onlineKeysChanged_self]
+                          simp only [Bool.false_eq_true, ↓reduceIte]
+                          rcases hts with e | e
+                          · rw [e]; exact ub2
+                          · rw [e]; exact self_not_blocksTs root ts)
+                      (by
+                        intro r0' hs'
+                        rw [hr0] at hs'; simp only [Option.some.injEq] at hs'; subst hs'
+                        show storedSnapshotBlocks root (afterRoot c.cfg r0 root d).snap sn = none
+                        rw [snd]
+                        rcases hshape with ⟨hr, _, hrot | ⟨_, e2⟩⟩ | ⟨hr, _, hsn, _⟩
+                        · have : refRoot d r0 = refRoot ds r0 := by simp [refRoot, hr]
+                          rw [this, hrot]; rfl
+                        · have : refRoot d r0 = refRoot ds r0 := by simp [refRoot, hr]
+                          rw [this, e2]
+                          have := ub3
+                          rw [sn2, sna] at this
+                          exact this
+                        · have : refRoot d r0 = root := by simp [refRoot, hr]
+                          rw [this, onlineKeysChanged_self]
+                          simp only [Bool.false_eq_true, ↓reduceIte]
+                          rcases hsn with e | e
+                          · rw [e, ← sn2]; exact ub3
+                          · rw [e]; exact self_not_blocksSnap root sn)
+                      (by
+                        show blocksTgt root d.tgt (Tgt.doc t) = false
+                        have base : blocksTgt root ds.tgt (Tgt.doc t) = false := by
+                          have := ub4; rw [a3tgt] at this; exact this
+                        rcases hshape with ⟨_, e, _⟩ | ⟨_, _, _, e | e⟩
+                        · rw [e]; exact base
+                        · rw [e]; exact base
+                        · rw [e]; exact self_not_blocksTgt root _)
+                    obtain ⟨b', hb'⟩ := hrun
+                    rw [hb']
+
+/-- a complete, valid little repository: `crash_no_lockout`'s hypothesis is satisfiable, and the
+conclusion is checked by evaluation on all of its crash states -/
+def rootC : Root := ⟨1, 100, false, [1, 2, 3, 4], some ⟨[1], 1⟩, some ⟨[3], 1⟩, some ⟨[4], 1⟩, some ⟨[2], 1⟩, 11, [⟨1, some 1, 11⟩]⟩
+def tgC : TargetsDoc := ⟨7, 100, [(0, ⟨5, 77⟩)], none, 14, [⟨4, some 4, 14⟩]⟩
+def snC : Snapshot := ⟨6, 100, [(.targets, ⟨7, none, none⟩)], 13, [⟨3, some 3, 13⟩]⟩
+def tsC : Timestamp := ⟨5, 100, some ⟨6, none, none⟩, 12, [⟨2, some 2, 12⟩]⟩
+def cycC : Cyc := ⟨⟨⟨100, 100, 100, 100, 8⟩, true, 0⟩,
+  [(.timestamp, .file ⟨.timestamp tsC, some 10, 0, .none⟩), (.snapshot none, .file ⟨.snapshot snC, some 10, 0, .none⟩),
+   (.targets none, .file ⟨.targets tgC, some 10, 0, .none⟩)], some rootC⟩
+
+def succeeds (r : Except Err View × St) : Bool := match r.1 with | .ok _ => true | .error _ => false
+
+example : succeeds (cycC.run {}) = true ∧ (crashStates cycC {}).length = 9 ∧
+    (crashStates cycC {}).all (fun d => succeeds (cycC.run d)) = true := by decide
 
 /-! ### The original `Datastore::create` (truncate, then write) loses the protection
 
